@@ -158,8 +158,8 @@ def build_driver():
     rc, out = sh("cd %s && make -j16 $(ls Model/*.v | sed 's/\\.v$/.vo/') > /dev/null && cd ../ocaml && "
                  "coqc -Q ../coq/Model RV.Model -Q ../coq/Spec RV.Spec -Q ../coq/Proofs RV.Proofs -Q ../coq/Props RV.Props "
                  "-Q ../coq/Extract RV.Extract ../coq/Extract/Extract.v > /dev/null && "
-                 "ocamlfind ocamlopt -O2 -w -a rvmodel.mli rvmodel.ml conv.ml driver.ml d_lex.ml d_parse.ml main.ml -o driver 2>/dev/null || "
-                 "ocamlfind ocamlopt -w -a rvmodel.mli rvmodel.ml conv.ml driver.ml d_lex.ml d_parse.ml main.ml -o driver" % COQ, timeout=3000)
+                 "ocamlfind ocamlopt -O2 -w -a rvmodel.mli rvmodel.ml conv.ml driver.ml d_lex.ml d_parse.ml d_cfg.ml main.ml -o driver 2>/dev/null || "
+                 "ocamlfind ocamlopt -w -a rvmodel.mli rvmodel.ml conv.ml driver.ml d_lex.ml d_parse.ml d_cfg.ml main.ml -o driver" % COQ, timeout=3000)
     return rc == 0, out[-3000:]
 
 
@@ -291,3 +291,21 @@ def store_cmd(cmd, files, base):
         parts += [enc(p), "t" if t is not None else "f", enc(t) if t is not None else "-"]
     parts.append(enc(base))
     return " ".join(parts)
+
+
+import re as _re
+_PICKS = _re.compile(r" ?PICKS\[([^\]]*)\]")
+
+
+def run_pair_with_picks(ctx, mk_cmd, inputs, release=False, limit_ms=8000, tag="p"):
+    """For commands whose model needs the implementation's exit choices: run the implementation
+    first, read PICKS[...] from each output line, then run the model with them.
+    mk_cmd(picks, input) -> command string.  Returns (impl_lines_without_picks, model_lines)."""
+    impl = run_impl(ctx, [mk_cmd("-", x) for x in inputs], release=release, limit_ms=limit_ms, tag=tag + "-impl")
+    picks, cleaned = [], []
+    for l in impl:
+        m = _PICKS.search(l)
+        picks.append((m.group(1) or "-") if m else "-")
+        cleaned.append(_PICKS.sub("", l))
+    model = run_model(ctx, [mk_cmd(p, x) for p, x in zip(picks, inputs)], tag=tag + "-model")
+    return cleaned, model
